@@ -32,9 +32,15 @@ pub struct Ran {
     pub t_return: std::time::Instant,
 }
 
+thread_local! {
+    /// every read call of the next exchanges' ports blocks this long (see `slow_replies`)
+    static SLOW_READS: std::cell::Cell<Option<std::time::Duration>> = const { std::cell::Cell::new(None) };
+}
+
 /// Runs one message through a real `SerialSignBus` on an instrumented port.
 pub fn exchange(x: &Exchange) -> Ran {
     let st = doubles::shared(doubles::WEIRD_SETTINGS);
+    st.borrow_mut().read_stall_each = SLOW_READS.with(|s| s.get());
     let reader = FragReader::new(x.tape.clone(), x.read_boundaries.clone(), x.read_faults.clone());
     let writer = FragWriter::new(x.write_script.clone(), x.write_default);
     let port = InstrPort::scripted(st.clone(), reader, writer);
@@ -550,6 +556,20 @@ fn sessions(ctx: &Ctx, shard: usize, n: u64, rep: &mut Report) {
             }
         }
     }
+    if shard == 9 || shard == 10 {
+        // a reply that takes SECONDS to arrive although no single read fails or times out (a long line trickling in a
+        // byte or a few at a time): the longest legal line at 12 ms per read call is more than 6 s in all. The bus has
+        // no business with wall-clock time beyond the port's own timeout: the reply comes back, whole, and the stream
+        // stands right behind it.
+        let reply = RefMsg::Unknown { addr: 3, ty: 0x42, data: rng.bytes(255) };
+        let m = if shard == 9 { RefMsg::Query(3) } else { RefMsg::Request(3, 1) };
+        SLOW_READS.with(|s| s.set(Some(std::time::Duration::from_millis(12))));
+        let t0 = std::time::Instant::now();
+        check(&plain(m, with_sentinel(refs::wire(&reply)), "reply_trickling_in_over_seconds"), rep);
+        SLOW_READS.with(|s| s.set(None));
+        rep.max("slowest_reply_seconds", t0.elapsed().as_secs_f64());
+        rep.count("replies_trickling_in_over_seconds");
+    }
     if shard == 1 {
         // one bus instance, 70 000 messages (more than any 16-bit counter holds), each judged like any other
         let msgs: Vec<RefMsg> = (0..70_000usize).map(|i| if i % 3 == 0 { RefMsg::Query((i / 3) as u16) } else { pool(&mut rng) }).collect();
@@ -809,6 +829,7 @@ pub fn run(ctx: &Ctx) -> Outcome {
     floors.push(floor("sessions that go on after a reply was cut short (read error / end of stream mid-session)", report.get("session_read_faults_hit") > 500, report.get("session_read_faults_hit")));
     floors.push(floor("a failing read right after each kind of reply (15 reply kinds x 3 next requests x 3 positions x 4 failures)", report.get("sessions_failing_read_after_each_reply_kind") == 15 * 3 * 3 * 4, report.get("sessions_failing_read_after_each_reply_kind")));
     floors.push(floor("two ordinary exchanges after exactly k failing ones (14 counts x 5 kinds of failure)", report.get("sessions_after_k_failures") == 70, report.get("sessions_after_k_failures")));
+    floors.push(floor("replies of 523 bytes that take more than 5 s to arrive, no read failing", report.get("replies_trickling_in_over_seconds") == 2 && report.maxs.get("slowest_reply_seconds").copied().unwrap_or(0.0) > 5.0, format!("{} replies, slowest {:.1} s", report.get("replies_trickling_in_over_seconds"), report.maxs.get("slowest_reply_seconds").copied().unwrap_or(0.0))));
     floors.push(floor("near-twin messages (no data / 00 / one byte / more; neighbouring type or address) back to back through one bus, every ordered pair", report.get("sessions_of_near_twin_messages") == 4 * 12 * 11, report.get("sessions_of_near_twin_messages")));
     floors.push(floor("data chunks followed by chunk counts of 0 / 1 / k / 65535 through one bus", report.get("sessions_with_chunks_and_counts") == 16, report.get("sessions_with_chunks_and_counts")));
     floors.push(floor("one bus instance used for 70 000 messages", report.get("long_session_messages_checked") == 70_000, report.get("long_session_messages_checked")));
